@@ -7,7 +7,8 @@ from check import standard_run, generic_replay, selftest_numeric
 from project import cfg_proj
 
 MODULE = "TraceGrammar"
-FAMILIES = [("Sat3", "any"), ("Sat3", "any"), ("Rat", "acyclic"), ("Bool", "any"), ("Sat2", "any"), ("RatU", "acyclic")]
+FAMILIES = [("Sat3", "any"), ("Sat3", "any"), ("Rat", "acyclic"), ("Bool", "any"), ("Sat2", "any"), ("RatU", "acyclic"),
+            ("Log", "acyclic")]
 
 
 def generate(rng, tier, shard, nshards):
